@@ -135,4 +135,17 @@ theorem resolve_case_sensitive :
 example : derives "code" "string" = true ∧ derives "code" "Element" = true ∧ derives "Patient" "DomainResource" = true
     ∧ derives "Bundle" "DomainResource" = false ∧ derives "Timing" "BackboneElement" = true := by decide +kernel
 
+/-- A TYPE SPECIFIER HAS ONE OR TWO PARTS: a dotted name of three or more parts (and the empty one) names
+    no type — Compile rejects it, whatever the parts are -/
+theorem long_specifier_rejected (ps : List String) (h : 3 ≤ ps.length ∨ ps = []) :
+    resolveParts ps = .err "too many type qualifiers" := by
+  rcases h with h | h
+  · match ps, h with
+    | _ :: _ :: _ :: _, _ => rfl
+  · subst h; rfl
+
+/-- … while one- and two-part names are looked up as before -/
+theorem short_specifier_resolved (ns n : String) :
+    resolveParts [n] = resolve none n ∧ resolveParts [ns, n] = resolve (some ns) n := ⟨rfl, rfl⟩
+
 end FP.Props.C12
